@@ -161,7 +161,9 @@ class Generated(DesignPart):
         return None
 
     def harness(self, chk):
-        def h(ctx): self.run(chk, ctx, SymInputs(ctx))
+        def h(ctx):
+            ctx.step_limit = max(ctx.step_limit, 60_000_000)
+            self.run(chk, ctx, SymInputs(ctx))
         return h
 
     def opts_of(self, w):
